@@ -225,7 +225,9 @@ class Ref:
             u = rng.choice([-1.0, 1.0], size=n) * 10.0 ** rng.uniform(-6, 8, size=n)
             return u / sc + nu
         if nm == "LogSinh":
-            w = np.concatenate([10.0 ** rng.uniform(-4, 2.5, size=n // 2),
+            # (w beyond 710 is where sinh itself overflows: the transform is linear
+            # there and must stay finite)
+            w = np.concatenate([10.0 ** rng.uniform(-4, 4, size=n // 2),
                                 rng.uniform(1e-4, 30, size=n - n // 2)])
             x = (w - self.a) / self.b * p["xmax"]
             wa = self.a + self.b * (x / p["xmax"])
